@@ -54,7 +54,11 @@ func FlushInterval(interval time.Duration) LoggerOption {
 }
 
 func NewLogger(w io.Writer, label string, opts ...LoggerOption) (Logger, error) {
-	zapl, err := zap.NewProduction()
+	// every error must be logged: the production preset samples repeated messages
+	// (first 100 per second, then every 100th), which silently drops error records
+	zapConf := zap.NewProductionConfig()
+	zapConf.Sampling = nil
+	zapl, err := zapConf.Build()
 	if err != nil {
 		return nil, err
 	}
